@@ -78,7 +78,11 @@ impl<W: AsyncWrite> AsyncWrite for BufWriter<W> {
             })
             .expect("Closure always return Ok");
 
-        (_, buf) = buf_try!(self.flush_if_needed().await, buf);
+        // The bytes are buffered now. A failure of this opportunistic flush must
+        // not fail the write: the caller would send the same bytes again. The
+        // data stays buffered and the error resurfaces on the next write or
+        // flush.
+        let _ = self.flush_if_needed().await;
 
         BufResult(Ok(written), buf)
     }
@@ -104,7 +108,11 @@ impl<W: AsyncWrite> AsyncWrite for BufWriter<W> {
             })
             .expect("Closure always return Ok");
 
-        (_, buf) = buf_try!(self.flush_if_needed().await, buf);
+        // The bytes are buffered now. A failure of this opportunistic flush must
+        // not fail the write: the caller would send the same bytes again. The
+        // data stays buffered and the error resurfaces on the next write or
+        // flush.
+        let _ = self.flush_if_needed().await;
 
         BufResult(Ok(written), buf)
     }
